@@ -1,6 +1,7 @@
 package whitespace
 
 import (
+	"github.com/ajitpratap0/GoSQLX/pkg/sql/tokenizer"
 	"strings"
 
 	"github.com/ajitpratap0/GoSQLX/pkg/linter"
@@ -74,8 +75,15 @@ func (r *MixedIndentationRule) Check(ctx *linter.Context) ([]linter.Violation, e
 	// Track the first indentation type we encounter
 	var firstIndentType string // "tab" or "space"
 
+	// Leading blanks of a line that begins inside a multi-line literal or
+	// comment are content of that region, not indentation.
+	classes := tokenizer.ClassifyBytes(ctx.SQL)
+	offset := 0
+
 	for lineNum, line := range ctx.Lines {
-		if len(line) == 0 {
+		lineOffset := offset
+		offset += len(line) + 1
+		if len(line) == 0 || startsInside(classes, lineOffset) {
 			continue
 		}
 
@@ -145,7 +153,14 @@ func (r *MixedIndentationRule) Check(ctx *linter.Context) ([]linter.Violation, e
 func (r *MixedIndentationRule) Fix(content string, violations []linter.Violation) (string, error) {
 	lines := strings.Split(content, "\n")
 
+	classes := tokenizer.ClassifyBytes(content)
+	offset := 0
 	for i, line := range lines {
+		lineOffset := offset
+		offset += len(line) + 1
+		if startsInside(classes, lineOffset) {
+			continue // inside a multi-line literal or comment: not indentation
+		}
 		// Replace tabs with 4 spaces in leading whitespace only
 		leadingWhitespace := getLeadingWhitespace(line)
 		if len(leadingWhitespace) > 0 {
